@@ -205,7 +205,14 @@ func runWorker(out string, n int, seed int64, from int) int {
 			Mode: []string{"stable", "stable", "churn", "renames"}[rnd.Intn(4)], Threads: 2 + rnd.Intn(3), Calls: 6 + rnd.Intn(10),
 			Cap: []int{0, 0, 1, 16}[rnd.Intn(4)], Pace: []string{"fast", "fast", "slow", "events_only", "late"}[rnd.Intn(5)],
 			Procs: []int{1, 2, 4, 16}[rnd.Intn(4)]}
-		dirty := runProgram(p, i, rnd, emit)
+		var dirty bool
+		if rnd.Intn(5) == 0 {
+			p.Mode, p.Cap, p.Pace, p.Threads = "duel", 0, "gated", 2+rnd.Intn(3)
+			p.Procs = []int{2, 4, 16}[rnd.Intn(3)]
+			dirty = runDuel(p, i, rnd, emit)
+		} else {
+			dirty = runProgram(p, i, rnd, emit)
+		}
 		if dirty {
 			return 3
 		}
@@ -479,6 +486,192 @@ func runProgram(p program, idx int, rnd *rand.Rand, emit func(interface{})) (dir
 		emit(r)
 	}
 	mu.Unlock()
+	emit(J{"k": "endprog", "idx": idx, "hang": hang, "crashed": false})
+	return dirty
+}
+
+
+// runDuel: rounds of one Remove(p1) against one to three Add(p1) issued at the same instant on a watched
+// path while the reader goroutine is parked on an event nobody receives (so that whatever the calls leave
+// behind in the kernel queue is still unprocessed when they return), each round bracketed by sequential
+// WatchList calls before and after the consumer has caught up.  Background goroutines call WatchList
+// all the time (read-only: not part of the history).
+func runDuel(p program, idx int, rnd *rand.Rand, emit func(interface{})) (dirty bool) {
+	runtime.GOMAXPROCS(p.Procs)
+	root, _ := os.MkdirTemp("", "vstress-")
+	root, _ = filepath.EvalSymlinks(root)
+	defer os.RemoveAll(root)
+	os.Chdir(root)
+	defer os.Chdir("/")
+	os.Mkdir("p1", 0o755)
+	os.Mkdir("s", 0o755)
+	atomic.StoreInt64(&stamp, 0)
+	emit(J{"k": "prog", "idx": idx, "id": p.ID, "mode": p.Mode, "threads": p.Threads, "cap": p.Cap, "pace": p.Pace, "procs": p.Procs})
+	var w *fsnotify.Watcher
+	var err error
+	for try := 0; try < 100; try++ {
+		if w, err = fsnotify.NewWatcher(); err == nil {
+			break
+		}
+		time.Sleep(100 * time.Millisecond)
+	}
+	if err != nil {
+		emit(J{"k": "infra", "what": "NewWatcher: " + err.Error()})
+		emit(J{"k": "endprog", "idx": idx, "hang": []string{}, "crashed": false})
+		return false
+	}
+	var mu sync.Mutex
+	var hist []rec
+	log := func(r rec) {
+		mu.Lock()
+		hist = append(hist, r)
+		mu.Unlock()
+	}
+	hang := []string{}
+	infra := ""
+	// one recorded call; false if it did not come back
+	do := func(name, op, path string) bool {
+		log(rec{Stamp: atomic.AddInt64(&stamp, 1), K: "call", T: name, Op: op, Path: path})
+		r := rec{K: "ret", T: name, Op: op, Path: path}
+		done := make(chan struct{})
+		go func() {
+			switch op {
+			case "add":
+				r.Res = classify(w.Add(path))
+			case "remove":
+				r.Res = classify(w.Remove(path))
+			case "watchlist":
+				l := w.WatchList()
+				r.Res, r.Nil = "ok", l == nil
+				sort.Strings(l)
+				r.WL = l
+			case "close":
+				r.Res = classify(w.Close())
+			}
+			close(done)
+		}()
+		select {
+		case <-done:
+			r.Stamp = atomic.AddInt64(&stamp, 1)
+			log(r)
+			return true
+		case <-time.After(8 * time.Second):
+			hang = append(hang, op)
+			return false
+		}
+	}
+	// the consumer reads until the event for name shows up
+	catchUp := func(name string) bool {
+		os.WriteFile(name, nil, 0o644)
+		tm := time.NewTimer(8 * time.Second)
+		defer tm.Stop()
+		for {
+			select {
+			case e, ok := <-w.Events:
+				if !ok {
+					infra = "Events closed"
+					return false
+				}
+				if e.Name == name {
+					os.Remove(name)
+					return true
+				}
+			case <-w.Errors:
+			case <-tm.C:
+				infra = "consumer did not see " + name
+				return false
+			}
+		}
+	}
+	var stop atomic.Bool
+	var bg sync.WaitGroup
+	for i := 0; i < rnd.Intn(7); i++ {
+		bg.Add(1)
+		go func() {
+			defer bg.Done()
+			for !stop.Load() {
+				w.WatchList()
+			}
+		}()
+	}
+	adders := p.Threads - 1
+	rounds := 20 + rnd.Intn(30)
+	ok := do("t9", "add", "s")
+	for r := 0; ok && r < rounds; r++ {
+		if ok = do("t9", "add", "p1"); !ok {
+			break
+		}
+		os.WriteFile(fmt.Sprintf("s/park-%d", r), nil, 0o644) // parks the reader: nobody is receiving
+		var wg sync.WaitGroup
+		start := make(chan struct{})
+		res := make([]bool, 1+adders)
+		for t := 0; t <= adders; t++ {
+			wg.Add(1)
+			go func(t int) {
+				defer wg.Done()
+				<-start
+				if t == 0 {
+					res[t] = do("t0", "remove", "p1")
+				} else {
+					res[t] = do(fmt.Sprintf("t%d", t), "add", "p1")
+				}
+			}(t)
+		}
+		close(start)
+		wg.Wait()
+		for _, b := range res {
+			ok = ok && b
+		}
+		ok = ok && do("t9", "watchlist", "")
+		if !ok {
+			break
+		}
+		if !catchUp(fmt.Sprintf("s/flag-%d", r)) {
+			break
+		}
+		os.Remove(fmt.Sprintf("s/park-%d", r))
+		ok = do("t9", "watchlist", "") && do("t9", "remove", "p1")
+		if !ok || !catchUp(fmt.Sprintf("s/flag2-%d", r)) {
+			break
+		}
+	}
+	stop.Store(true)
+	if ok && infra == "" {
+		for _, s := range []string{"watchlist", "close", "add", "remove", "watchlist"} {
+			if !do("t9", s, map[string]string{"add": "p1", "remove": "p1"}[s]) {
+				ok = false
+				break
+			}
+		}
+	}
+	dirty = !ok
+	if !dirty {
+		bg.Wait()
+	}
+	mu.Lock()
+	sort.Slice(hist, func(i, j int) bool { return hist[i].Stamp < hist[j].Stamp })
+	for i := range hist {
+		if hist[i].K != "call" {
+			continue
+		}
+		hist[i].Res = "noreturn"
+		for j := i + 1; j < len(hist); j++ {
+			if hist[j].K == "ret" && hist[j].T == hist[i].T {
+				hist[i].Res, hist[i].WL, hist[i].Nil = hist[j].Res, hist[j].WL, hist[j].Nil
+				break
+			}
+		}
+	}
+	for _, r := range hist {
+		if r.WL == nil {
+			r.WL = []string{}
+		}
+		emit(r)
+	}
+	mu.Unlock()
+	if infra != "" {
+		emit(J{"k": "infra", "what": infra})
+	}
 	emit(J{"k": "endprog", "idx": idx, "hang": hang, "crashed": false})
 	return dirty
 }
